@@ -19,6 +19,7 @@ import (
 	"fmt"
 	"strings"
 	"sync"
+	"sync/atomic"
 	"time"
 
 	builderclient "github.com/attestantio/go-builder-client"
@@ -29,7 +30,6 @@ import (
 	"github.com/attestantio/vouch/util"
 	"github.com/pkg/errors"
 	"go.opentelemetry.io/otel"
-	"golang.org/x/sync/semaphore"
 )
 
 // UnblindBlock turns a blinded block into an unblinded block.
@@ -134,8 +134,9 @@ func (s *Service) unblindProposal(ctx context.Context,
 ) error {
 	// We do not create a cancelable context, as if we do cancel the later-returning providers they will mark themselves
 	// as failed even if they are just running a little slow, which isn't a useful thing to do.  Instead, we use a
-	// semaphore to track if a signed block has been returned by any provider.
-	sem := semaphore.NewWeighted(1)
+	// flag to track if a signed block has been returned by any provider.  (A semaphore taken briefly by every
+	// provider to test it made a provider that tested at the same instant as another discard its block.)
+	var responded atomic.Bool
 
 	// The channel has room for every provider, so that those that return a block after the first do not block for ever.
 	// It is closed once every provider has finished, so that the receiver is not left waiting if none of them succeeds.
@@ -168,13 +169,12 @@ func (s *Service) unblindProposal(ctx context.Context,
 					},
 				})
 
-				if !sem.TryAcquire(1) {
-					// We failed to acquire the semaphore, which means another relay has responded already.
+				if responded.Load() {
+					// Another relay has responded already.
 					// As such, we can leave without going any further.
 					log.Trace().Msg("Another relay has already responded")
 					return
 				}
-				sem.Release(1)
 
 				if err != nil {
 					log.Debug().Err(err).Int("retries", retries).Msg("Failed to unblind block")
@@ -193,9 +193,8 @@ func (s *Service) unblindProposal(ctx context.Context,
 			}
 
 			log.Trace().Msg("Unblinded block")
-			// Acquire the semaphore to confirm that a block has been received.
-			// Use TryAcquire in case two providers return the block at the same time.
-			sem.TryAcquire(1)
+			// Note that a block has been received.
+			responded.Store(true)
 			ch <- signedProposalResponse.Data
 		}(ctx, provider, respCh)
 	}
